@@ -201,6 +201,16 @@ func ruleSFund(c *Ctx) {
 				} else if sc := call.Call.StaticCallee(); sc != nil && names[sc.Name()] {
 					n := sc.Name()
 					if n == "Is" {
+						// a pure test: it shows in the shape only where it holds on the path
+						holds := false
+						for _, pc := range d.Conds {
+							if pc.Cond.V == ssa.Value(call) && pc.Truth {
+								holds = true
+							}
+						}
+						if !holds {
+							continue
+						}
 						n = "errors.Is(" + globalArgName(call.Call.Args[1]) + ")"
 					}
 					ev = append(ev, n)
@@ -214,7 +224,7 @@ func ruleSFund(c *Ctx) {
 		"estimateDeficit; return err",
 		"estimateDeficit; return nil",
 		"estimateDeficit; supplier; errors.Is(ErrNoUTXO); return ErrInsufficientFunds",
-		"estimateDeficit; supplier; errors.Is(ErrNoUTXO); return err",
+		"estimateDeficit; supplier; return err",
 		"estimateDeficit; supplier; FromUTXOs; return err",
 		"estimateDeficit; supplier; FromUTXOs; estimateDeficit; return err",
 		"estimateDeficit; supplier; FromUTXOs; estimateDeficit; loop",
@@ -293,6 +303,13 @@ func ruleGMapFromUTXOs(c *Ctx) {
 					got[fieldName(fa.X.Type(), fa.Field)] = w.term(x.Val)
 				}
 			case *ssa.Call:
+				if bi, ok := x.Call.Value.(*ssa.Builtin); ok && bi.Name() == "append" {
+					// the append written out in place: tx.Inputs = append(tx.Inputs, input)
+					vals := appendedValues(x)
+					if appendTargetField(x) == "Inputs" && len(vals) == 1 && vals[0] == ssa.Value(inputAlloc) && w.term(x.Call.Args[0]) == "p0.Inputs" {
+						calls = append(calls, "tx.addInput(input)")
+					}
+				}
 				if sc := x.Call.StaticCallee(); sc != nil && len(x.Call.Args) >= 2 {
 					if x.Call.Args[0] == ssa.Value(inputAlloc) {
 						calls = append(calls, sc.Name()+"("+w.term(x.Call.Args[1])+")")
